@@ -254,6 +254,20 @@ def run(ctx):
         raise AnalysisError("C18.R4", "expected the XForm and itemsets writes in xls2xform_convert")
     for nid, c in writes:
         r4.check(conv[0] in dom.get(nid, ()), f"xls2xform_convert:{norm(c)[:60]}", "this write is dominated by the return of convert()", xc.loc(c))
+    # the verdict that gates the write is the one requested by the caller: convert() receives this function's own
+    # validate / enketo parameters (not constants), and no validator runs after the file exists
+    ccall = next(c for c in cfgmod.calls_in(conv_stmt) if call_name(c) == "convert")
+    params = {a.arg for a in [*xc.node.args.args, *xc.node.args.kwonlyargs]}
+    from ..astutil import subst_locals as _sl
+    for flag in ("validate", "enketo"):
+        v = kw(ccall, flag)
+        v = _sl(v, xc.node) if v is not None else None
+        r4.check(isinstance(v, ast.Name) and v.id in params, f"xls2xform_convert:convert({flag}=)", f"convert() validates as the caller asked ({flag} is passed through)", xc.loc(ccall),
+                 why_fail=f"{flag}={norm(v) if v is not None else 'omitted'}")
+    after = [c for nid, n in g.nodes.items() for c in cfgmod.calls_in(n.stmt) if any(w in dom.get(nid, ()) for w, _ in writes)
+             and (call_name(c) in ("check_xform", "validate") or "validate" in norm(c.func))]
+    r4.check(not after, "xls2xform_convert:no validation after the write", "nothing is validated once the output file has been written", xc.loc(),
+             why_fail=f"{[norm(c)[:50] for c in after]}")
     # what is written and under which guard
     wcalls = [c for c in walk_own(xc.node) if isinstance(c, ast.Call) and call_name(c) == "write"]
     payloads = sorted(norm(c.args[0]) for c in wcalls if c.args)
